@@ -35,6 +35,7 @@ type FnResult struct {
 	ParamVals []*Val
 	FirstIter []string
 	Root      bool
+	CallSites []*callSite
 }
 
 type modelVar struct {
@@ -262,6 +263,7 @@ func (e *Engine) verifyFn(f *ssa.Function, cfg *FnConfig) *FnResult {
 	res.ModelVars = c.modelVars
 	res.ParamVals = c.params
 	res.FirstIter = c.firstIter
+	res.CallSites = c.callSites
 	var toSolve []*Obl
 	for _, o := range real {
 		if e.skipObl != nil && e.skipObl[o.Name] {
